@@ -38,10 +38,20 @@ class Rule:
         self.id = rid
         self.fn = fn
         self.props = props
-        self.floor = floor
+        self._floor = floor
         self.doc = doc
         self.tier = tier
         self.configs = configs
+
+
+def _floor_for(r, cfg):
+    if isinstance(r._floor, dict):
+        return r._floor.get(cfg, min(r._floor.values()))
+    return r._floor
+
+
+Rule.floor_for = _floor_for
+Rule.floor = property(lambda self: self._floor if not isinstance(self._floor, dict) else self._floor.get('all'))
 
 
 def rule(rid, props, floor, tier='quick', configs=('all',), doc=None):
